@@ -148,4 +148,37 @@ def run(ck):
     ck.require_fact("I1.url-inside-packet", fl, nonnull, E.m_cmp("<", E.m_is_ref("urlOffset"), E.m_is_ref("receivedPacketSize")), True, "return url")
     exact = E.m_cmp("==", E.M(lambda t: "strlen" in E.mentions(t), "urlOffset + strlen(url) + 1"), E.m_is_ref("receivedPacketSize"))      # either operand order
     ck.require_fact("I1.url-inside-packet", fl, nonnull, exact, True, "return url", why="(a URL without its terminator inside the packet would be used)")
-    ck.assume("SNMP (lib/snmplib asn_parse_*) and use-after-free/abort freedom are not decided by this module; the window arithmetic of callers of the unpackers is trusted")
+    ck.rule("N1 BUDGET asn_parse_objid (lib/snmplib, reached from snmpHandleUdp before any ACL): sub-identifiers are stored through a cursor that starts K elements into "
+            "the caller's array (oidp = objid + K: the first encoded byte expands into two components) and every store is paid for by one decrement of the caller's "
+            "capacity *objidlength; at each store the decrements made so far exceed the stores made so far by at least K + 1, so at most capacity elements are ever "
+            "written (dropping the 'account for expansion of first byte' decrement lets a 65-component OID write one element past a 64-element array)")
+    sn = ck.facts(["lib/snmplib/asn1.c"], whole=False)
+    ao = sn.fn("asn_parse_objid")
+    cur = [ev for b in ao.blocks.values() for ev in b["ev"] if ev.get("e") == "decl" and E.strip(ev.get("init") or {}).get("k") == "bin" and E.strip(ev["init"]).get("op") == "+"
+           and E.strip(E.strip(ev["init"])["l"]).get("dk") == "param" and E.const(E.strip(ev["init"])["r"]) is not None]
+    ck.need(len(cur) == 1, "C39: the output cursor of asn_parse_objid (objid + K) was not found")
+    curname, K = cur[0]["d"], E.const(E.strip(cur[0]["init"])["r"])
+    capname = [p_["d"] for p_ in ao.params if p_["d"] != E.strip(E.strip(cur[0]["init"])["l"])["d"] and "int *" in p_["t"]]
+    capname = [n for n in capname if any(ev.get("e") == "asg" and ev.get("op") == "--" and E.strip(ev["lhs"]).get("k") == "un" and E.m_is_ref(n)(E.strip(ev["lhs"]).get("e")) for b in ao.blocks.values() for ev in b["ev"])]
+    ck.need(len(capname) == 1, "C39: the capacity counter of asn_parse_objid was not found: %s" % capname)
+    capname = capname[0]
+    is_dec = lambda ev: ev.get("e") == "asg" and ev.get("op") in ("--", "p--") and E.strip(ev["lhs"]).get("k") == "un" and E.m_is_ref(capname)(E.strip(ev["lhs"]).get("e"))
+    is_store = lambda ev: ev.get("e") == "asg" and ev.get("op") == "=" and curname in E.mentions(ev.get("lhs")) and E.strip(ev["lhs"]).get("k") == "un"
+
+    def slack(ev, env, fs):
+        if is_dec(ev):
+            env["$slack"] = min(4, env.get("$slack", 0) + 1)
+        elif is_store(ev):
+            env["$slack"] = max(-2, env.get("$slack", 0) - 1)
+    afl = ck.flow(ao, on_event=slack)
+    stores = [st for st in afl.sites if is_store(st.ev)]
+    ck.need(stores, "C39: asn_parse_objid no longer stores sub-identifiers through its cursor")
+    for st in stores:
+        have = st.env.get("$slack", 0)
+        if have >= K + 1:
+            ck.ok("N1.objid-store-budget", st.where(), "each store is covered: %d decrement(s) ahead of the stores, cursor offset %d" % (have, K))
+        else:
+            ck.violation("N1.objid-store-budget", "N1|asn_parse_objid|store-budget", st.where(),
+                         "asn_parse_objid stores through `%s` (which starts %d element(s) into the array) with only %d unspent decrement(s) of *%s: the last store can land one "
+                         "element past the caller's array" % (curname, K, have, capname), afl.witness(st))
+    ck.assume("SNMP decoding other than asn_parse_objid (N1) and use-after-free/abort freedom are not decided by this module; the window arithmetic of callers of the unpackers is trusted")
